@@ -22,6 +22,8 @@ SPEC_MODULES = {
     "C09": ["specs.c09_lock"],
     "C10": ["specs.c10_semaphore", "specs.c10_limiter"],
     "C11": ["specs.c11_condition"],
+    "C12": ["specs.c12_memory"],
+    "C13": ["specs.c12_memory"],
 }
 
 
@@ -44,7 +46,7 @@ def _run_unit(arg):
         "message": res.message,
         "seconds": res.seconds,
         "trusted": list(getattr(u, "trusted", ())),
-        "obligations": [o.to_json() for o in res.obligations],
+        "obligations": [dict(o.to_json(), props=sorted(u.props_of(o.name))) for o in res.obligations],
     }
 
 
